@@ -8,12 +8,17 @@ CONSTANTS Mutant, MaxFail, Big
 VARIABLES kind, x, idx, now, lastDial, lastBo, phase
 vars == <<kind, x, idx, now, lastDial, lastBo, phase>>
 
-Bases == {<<0>>, <<1>>, <<1,0,0,0,0,0,0,0,0,0>>, <<4,6,1,1,6,8,6,0,1,8,4,2,7,3,8,7,9,0,4>>}   \* 0, 1 ns, 1 s, 2^62 ns
-Maxes == {<<1>>, <<1,2,0,0,0,0,0,0,0,0,0,0>>, MaxInt64}
-Mults == {<<1,1>>, <<3,2>>, <<8,5>>, <<1,2>>} \cup (IF Big = 1 THEN {<<2,1>>, <<5,4>>} ELSE {})
-Jits == {<<0,1>>, <<1,5>>, <<3,2>>} \cup (IF Big = 1 THEN {<<1,1>>, <<1,2>>} ELSE {})
-Ns == IF Big = 1 THEN (0..8) \cup {16, 24, 64} ELSE {0, 1, 2, 3, 5, 8, 16}
-Us == IF Big = 1 THEN {0, 1, 2, 3, 4} ELSE {0, 2, 4}       \* jitter draw u = (k - 2) / 2
+\* Big: 0 tiny (negative controls), 1 quick, 2 thorough
+B1 == <<1>>
+BS == <<1,0,0,0,0,0,0,0,0,0>>                              \* 1 s
+B62 == <<4,6,1,1,6,8,6,0,1,8,4,2,7,3,8,7,9,0,4>>           \* 2^62 ns
+M120 == <<1,2,0,0,0,0,0,0,0,0,0,0>>                        \* 120 s
+Bases == CASE Big = 0 -> {B62} [] Big = 1 -> {B1, BS, B62} [] OTHER -> {<<0>>, BS, B62}
+Maxes == CASE Big = 0 -> {MaxInt64} [] Big = 1 -> {M120, MaxInt64} [] OTHER -> {<<1>>, M120, MaxInt64}
+Mults == CASE Big = 0 -> {<<2,1>>} [] Big = 1 -> {<<3,2>>, <<8,5>>, <<1,2>>} [] OTHER -> {<<1,1>>, <<3,2>>, <<8,5>>, <<1,2>>, <<2,1>>}
+Jits == CASE Big = 0 -> {<<1,5>>} [] Big = 1 -> {<<0,1>>, <<1,5>>, <<3,2>>} [] OTHER -> {<<0,1>>, <<1,5>>, <<3,2>>, <<1,1>>}
+Ns == CASE Big = 0 -> {0, 1} [] Big = 1 -> {0, 1, 3, 8} [] OTHER -> (0..8) \cup {16}
+Us == {0, 2, 4}       \* jitter draw u = (k - 2) / 2
 
 Cfg(b, m, mu, j) == [base |-> b, max |-> m, mp |-> mu[1], mq |-> mu[2], jp |-> j[1], jq |-> j[2]]
 \* floor(T * (1 + j * (k-2)/2)) = floor(TargetP * (2 jq + jp (k-2)) / (2 jq 10^12)); negative -> 0
